@@ -372,7 +372,9 @@ def arc_include(thetas, reference_theta):
     """
 
     s_thetas = np.copy(thetas)
-    s_theta1 = thetas[..., 1] - thetas[..., 0]
+    # np.array: for a single pair of angles the difference is a numpy
+    # scalar, which does not support the masked assignment below
+    s_theta1 = np.array(thetas[..., 1] - thetas[..., 0])
     s_reference = np.expand_dims(reference_theta - thetas[..., 0],
                                  axis=-1)
 
